@@ -36,15 +36,18 @@ Definition wrap_model (signed : bool) (n x : Z) : Z :=
   if signed then (if y <? 2^(n - 1) then y else Z.lor y (- m)) else y.
 
 (* one element after scaling: int64/Python-int value or float64/Python-float value *)
+(* a float is compared with the integer bound EXACTLY ([Fin b 0] is the integer itself, not its rounded double): for words of at
+   most 53 bits the bound is a double anyway; beyond that _overflow_action compares and clamps rounded floats that can reach
+   the bound as Python integers (fix b7d5946), and floats below 2^53 are on the same side of the bound and of its double *)
 Definition elem_gt (x : num) (b : Z) : bool :=      (* new_val > val_max *)
   match x with
   | NI z => b <? z
-  | NF v => f64_ltb (f64_of_Z b) v
+  | NF v => f64_ltb (Fin b 0) v
   | NR q => dy_ltb (dy_of_Z b) q end.
 Definition elem_lt (x : num) (b : Z) : bool :=      (* new_val < val_min *)
   match x with
   | NI z => z <? b
-  | NF v => f64_ltb v (f64_of_Z b)
+  | NF v => f64_ltb v (Fin b 0)
   | NR q => dy_ltb q (dy_of_Z b) end.
 
 (* objects.py:845-847 — one decision for the whole array, on the UNSCALED values:
